@@ -150,6 +150,119 @@ theorem getItem_window (b : Basis K) (k : Nat) (hk : k < b.nmodes) :
     getItem b (.slice (some k) (some (k + 1)) none) = .ok (.basis (selectCols b [k])) := by
   simp [getItem, selIdx, sliceIdx_window b.nmodes k hk]
 
+/-! ### The constructor dispatch
+
+`fromInput` is the decision `ModeBasis.__init__` takes on the Python object it is given (the
+driver builds every basis through it; the harness only describes the object: ndarray, sparse
+matrix of a given format, list or tuple of vectors / sparse matrices). -/
+
+/-- a two-dimensional `ndarray` is taken as the dense transformation matrix -/
+theorem fromInput_ndarray (n m : Nat) (rows : List (List K)) :
+    fromInput (.ndarray n m rows) = some (fromDense n m rows) := rfl
+
+/-- a CSC sparse matrix is taken over as the sparse transformation matrix -/
+theorem fromInput_csc (n m : Nat) (ip ix : List Nat) (d : List K) :
+    fromInput (.spmat .csc n m ip ix d) = some (fromCSC n m ip ix d) := rfl
+
+/-- a non-empty list or tuple of vectors of one length is `fromFields` (`np.stack(…, axis=-1)`) -/
+theorem fromInput_fields (t : Bool) (npix : Nat) (vs : List (List K)) (hne : vs ≠ [])
+    (h : ∀ v ∈ vs, v.length = npix) :
+    fromInput (.seq t (vs.map Mode.vec)) = some (fromFields npix vs) := by
+  match vs, hne with
+  | v :: rest, _ =>
+    have hv : v.length = npix := h v (by simp)
+    have := allVec_map npix (v :: rest) h
+    simp only [List.map_cons] at this ⊢
+    simp only [fromInput, hv, this, Option.map_some]
+
+/-- a non-empty list or tuple of sparse row vectors `(1, npix)` is `fromSparseRows`
+(`vstack(…).T.tocsc()`) -/
+theorem fromInput_rows (t : Bool) (npix : Nat) (es : List (SCol K)) (hne : es ≠ []) :
+    fromInput (.seq t (es.map (Mode.sp 1 npix))) = some (fromSparseRows npix es) := by
+  match es, hne with
+  | e :: rest, _ =>
+    have := allRow_map npix (e :: rest)
+    simp only [List.map_cons] at this ⊢
+    simp only [fromInput, this, Option.map_some]
+
+/-- lists and tuples are treated alike -/
+theorem fromInput_tuple_eq_list (items : List (Mode K)) :
+    fromInput (.seq true items) = fromInput (.seq false items) := by
+  match items with
+  | [] => rfl
+  | .vec _ :: _ => rfl
+  | .sp .. :: _ => rfl
+
+/-- an empty list, and a list that mixes vectors and sparse matrices, is rejected (`ValueError`
+from `np.stack`) -/
+theorem fromInput_rejects (t : Bool) (v : List K) (nr nc : Nat) (e : SCol K) (l l' : List (Mode K)) :
+    fromInput (.seq t ([] : List (Mode K))) = none ∧
+    fromInput (.seq t (.vec v :: (l ++ .sp nr nc e :: l'))) = none ∧
+    fromInput (.seq t (.sp nr nc e :: (l ++ .vec v :: l'))) = none := by
+  refine ⟨rfl, ?_, ?_⟩
+  · have := allVec_sp v.length nr nc e (.vec v :: l) l'
+    simp only [List.cons_append] at this
+    simp only [fromInput, this, Option.map_none]
+  · have := allRow_vec nc v (.sp nr nc e :: l) l'
+    simp only [List.cons_append] at this
+    simp only [fromInput, this, Option.map_none]
+
+/-- **Every input form, through the dispatch, denotes the same matrix.**  If an ndarray, a CSC
+triple, a CSR triple, COO triples, a list of vectors and a tuple of sparse row vectors all
+describe the entries `f i j` of an `npix × nmodes` matrix (`nmodes > 0` for the two list forms),
+`fromInput` accepts each of them and the resulting bases have the same dense table and shape. -/
+theorem input_forms_same_map (npix nmodes : Nat) (hm : 0 < nmodes) (f : Nat → Nat → K)
+    (rows : List (List K)) (hr : WF (fromDense npix nmodes rows))
+    (hrf : ∀ i j, i < npix → j < nmodes → rowsEntry rows i j = f i j)
+    (indptr indices : List Nat) (data : List K) (hlen : indices.length = data.length)
+    (hptr : ∀ j, j < nmodes → indptr.getD j 0 ≤ indptr.getD (j + 1) 0 ∧ indptr.getD (j + 1) 0 ≤ data.length)
+    (hcf : ∀ i j, i < npix → j < nmodes → cscEntry indptr indices data i j = f i j)
+    (rptr rind : List Nat) (rdata : List K) (hrlen : rind.length = rdata.length)
+    (hrptr : ∀ i, i < npix → rptr.getD i 0 ≤ rptr.getD (i + 1) 0 ∧ rptr.getD (i + 1) 0 ≤ rdata.length)
+    (hrcf : ∀ i j, i < npix → j < nmodes → cscEntry rptr rind rdata j i = f i j)
+    (crow ccol : List Nat) (cdata : List K)
+    (hcoo : ∀ i j, i < npix → j < nmodes → cooEntry crow ccol cdata i j = f i j)
+    (fields : List (List K)) (hfl : fields.length = nmodes) (hfn : ∀ v ∈ fields, v.length = npix)
+    (hff : ∀ i j, i < npix → j < nmodes → (fields.getD j []).getD i 0 = f i j)
+    (srows : List (SCol K)) (hsl : srows.length = nmodes)
+    (hsf : ∀ i j, i < npix → j < nmodes → colEntry (srows.getD j []) i = f i j) :
+    ∀ inp ∈ [Input.ndarray npix nmodes rows, .spmat .csc npix nmodes indptr indices data,
+        .spmat .csr npix nmodes rptr rind rdata, .spmat .coo npix nmodes crow ccol cdata,
+        .seq false (fields.map Mode.vec), .seq true (srows.map (Mode.sp 1 npix))],
+      ∃ b, fromInput inp = some b ∧ toDense b = table npix nmodes f ∧ b.npix = npix ∧ b.nmodes = nmodes := by
+  obtain ⟨h1, h2, h3, h4, h5, h6⟩ := forms_same_map npix nmodes f rows hr hrf indptr indices data hlen hptr hcf
+    fields hfl hff srows hsl hsf
+  have tab : ∀ (b : Basis K), b.npix = npix → b.nmodes = nmodes →
+      (∀ i j, i < npix → j < nmodes → ent b i j = f i j) → toDense b = table npix nmodes f := by
+    intro b e1 e2 e3
+    unfold toDense table
+    rw [e1, e2]
+    apply List.map_congr_left; intro i hi
+    apply List.map_congr_left; intro j hj
+    simp at hi hj
+    exact e3 i j hi hj
+  have hfne : fields ≠ [] := by intro h; rw [h] at hfl; simp at hfl; omega
+  have hsne : srows ≠ [] := by intro h; rw [h] at hsl; simp at hsl; omega
+  intro inp hinp
+  simp only [List.mem_cons, List.mem_nil_iff, or_false] at hinp
+  rcases hinp with rfl | rfl | rfl | rfl | rfl | rfl
+  · exact ⟨_, rfl, h1, rfl, rfl⟩
+  · exact ⟨_, rfl, h2, rfl, rfl⟩
+  · refine ⟨_, rfl, tab _ rfl rfl ?_, rfl, rfl⟩
+    intro i j hi hj
+    have hlen' : (splitCSC npix rptr rind rdata).length = npix := by simp [splitCSC]
+    rw [ent_transposeRows npix nmodes _ i j (by rw [hlen']; exact hi) hj]
+    have := ent_fromCSC nmodes npix rptr rind rdata j i hi hrlen (hrptr i hi)
+    simp only [ent, fromCSC] at this
+    rw [this]
+    exact hrcf i j hi hj
+  · refine ⟨_, rfl, tab _ rfl rfl ?_, rfl, rfl⟩
+    intro i j hi hj
+    rw [ent_cooCols npix nmodes crow ccol cdata i j hj]
+    exact hcoo i j hi hj
+  · exact ⟨_, fromInput_fields false npix fields hfne hfn, h3, rfl, h5⟩
+  · exact ⟨_, fromInput_rows true npix srows hsne, h4, rfl, h6⟩
+
 variable [DecidableEq K]
 
 /-- **`a + b` is horizontal concatenation**: for bases over the same grid the sum exists, has
